@@ -103,3 +103,18 @@ fn needs_send<D: ROwned + RMod + TSend>(d: &D) {
     let _ = is_send(d.ma(1));
     let _ = is_send(TSend::a(d, 1));
 }
+
+/// large by-value arguments (arrays, nested arrays, big tuples) through async delegation
+#[entrait(RBigArray)]
+async fn r_big_array<D>(deps: &D, block: [u8; 64], blocks: [[u8; 128]; 4]) -> usize {
+    block.len() + blocks.len()
+}
+#[entrait(pub RBigMod)]
+pub mod r_big_mod {
+    pub async fn big<D>(deps: &D, block: [u8; 4096]) -> usize {
+        block.len()
+    }
+    pub async fn small<D>(deps: &D, block: [u8; 63]) -> usize {
+        block.len()
+    }
+}
